@@ -79,7 +79,7 @@ _DECIDING = ["grid2d.array.container", "grid2d.array.pairing", "grid2d.grid.pair
              "radial.inside_ray", "radial.result_pairing", "transform.received", "transform.pairing",
              "transform.not_twice"]
 MIN_MONITORS = {"*": dict({k: 20 for k in _DECIDING}, **{"radial.plain_array_sequence": 20, "radial.callers_coordinates_untouched": 20,
-                                                                      "grid1d.after_in_place_edit": 20})}
+                                                                      "grid1d.after_in_place_edit": 20, "kwargs.forwarded": 20, "transform.nested_once": 20})}
 
 RADIAL_MIN = {"VerifC17Small": 1e-8, "VerifC17Mid": 0.3, "VerifC17Big": 2.5}
 
@@ -195,6 +195,21 @@ def make_profiles(aa):
             @dec.relocate_to_radial_minimum
             def f_moved(self, grid, *args, **kwargs):
                 return np.array(self.see(grid), dtype=float)          # returns the coordinates that reached it
+
+            # -- keyword parameters of the user function (forwarded by the decorators for every kind of grid)
+            @dec.to_array
+            def f_kw(self, grid, *args, scale=1.0, offset=0.0, **kwargs):
+                return scale * self.tags.t(self.see(grid)) + offset
+
+            # -- a decorated function whose body calls another transform-decorated method and forwards its keyword arguments
+            @dec.transform
+            def inner(self, grid, *args, **kwargs):
+                return self.tags.t(self.see(grid))
+
+            @dec.to_array
+            @dec.transform
+            def f_nested(self, grid, *args, **kwargs):
+                return self.inner(grid, **kwargs)
 
             @dec.relocate_to_radial_minimum
             def f_moved_only(self, grid, *args, **kwargs):
@@ -372,6 +387,35 @@ def check_radial_and_transform(ctx, prof_name, p, grid, gin, W, out_cls, wrap_ok
                   "transform.not_twice", transforms=len(p.frame_log), expected=exp, got=sl, **W)
 
 
+def check_kwargs_and_nesting(ctx, p, grid, W, frame=None):
+    """Keyword parameters reach the user function for every grid kind; a function that delegates to another transform-decorated
+    method (forwarding **kwargs) sees coordinates moved to the profile frame exactly once, whether the caller omits
+    `is_transformed` or passes False explicitly."""
+    ok, res, log = call_logged(ctx, p, "kwargs.exception", p.f_kw, grid, scale=-2.5, offset=0.75)
+    if ok:
+        if len(log) == 1:
+            exp = -2.5 * p.tags.t(log[0][1]) + 0.75
+            got = _np(res.slim) if hasattr(res, "slim") else _np(res)
+            ctx.check(got.shape == exp.shape and np.array_equal(got, exp), "kwargs.forwarded", grid_type=type(grid).__name__, keywords={"scale": -2.5, "offset": 0.75},
+                      expected=exp, got=got, **W)
+        else:
+            ctx.check(False, "kwargs.forwarded", grid_type=type(grid).__name__, calls=len(log), **W)
+    if frame is None:
+        return
+    for how, kw in (("flag omitted", {}), ("is_transformed=False", {"is_transformed": False})):
+        p.log.clear()
+        p.frame_log.clear()
+        ok, res = ctx.guarded("transform.exception", lambda: p.f_nested(grid, **kw))
+        if ok:
+            got = _np(res.slim) if hasattr(res, "slim") else _np(res)
+            good = (len(p.frame_log) == 1 and len(p.log) == 1 and p.log[0][1].shape == frame.shape and np.array_equal(p.log[0][1], frame)
+                    and np.array_equal(got, p.tags.t(frame)))
+            ctx.check(good, "transform.nested_once", caller=how, transforms=len(p.frame_log), expected_received=frame,
+                      received=lambda: p.log[0][1] if p.log else None, **W)
+    p.log.clear()
+    p.frame_log.clear()
+
+
 def call_logged(ctx, p, monitor, fn, *a, **k):
     p.log.clear()
     ok, res = ctx.guarded(monitor, fn, *a, **k)
@@ -491,6 +535,7 @@ def check_grid2d(ctx, i):
     # radial minimum + transform
     check_radial_and_transform(ctx, prof_name, p, grid, gin, W, aa.Grid2D,
                                lambda q: same_mask2d(q, m, scales, origin))
+    check_kwargs_and_nesting(ctx, p, grid, W, frame=gin - np.asarray(p.centre))
     cls = ["grid2d", "mask:" + fam, "profile:" + prof_name, "coords:" + ("arbitrary" if arbitrary else "pixel_centres"),
            "centre_mode:%d" % mode, "angle:" + ("none" if angle is None else "set")]
     if not m.any():
@@ -574,6 +619,7 @@ def check_irregular(ctx, i):
             ctx.check(unchanged(log) and wrapped_irr(res, cls_, exp), "project.irregular.pairing", method=meth, result_type=type(res).__name__,
                       expected=exp, got=lambda: _np(res), **W)
     check_radial_and_transform(ctx, prof_name, p, grid, gin, W, aa.Grid2DIrregular, lambda q: True)
+    check_kwargs_and_nesting(ctx, p, grid, W, frame=gin - np.asarray(p.centre))
     ctx.case("irregular", gin, prof_name, centre, angle, repr(tags.c), nontrivial=n >= 2,
              cls=["irregular", "profile:" + prof_name, "points:%s" % ("1" if n == 1 else "2-5" if n <= 5 else "6+"),
                   "centre:" + ("origin" if centre == (0.0, 0.0) else "shifted")],
@@ -689,6 +735,7 @@ def check_grid1d(ctx, i):
             exp = tags.t(line)
             ctx.check(isinstance(res, aa.Array1D) and _np(res.slim).shape == exp.shape and np.array_equal(_np(res.slim), exp),
                       "project.grid1d.pairing", result_type=type(res).__name__, expected=exp, got=lambda: _np(res), **W)
+    check_kwargs_and_nesting(ctx, p, grid, W, frame=None)
     # history: the same Grid1D object is edited in place (grid[k] = value, e.g. to move a point off a singular centre) and
     # evaluated again: the functions must now receive the line through the coordinates the grid holds NOW
     if n >= 1:
